@@ -1274,7 +1274,9 @@ class SimShutil(_Facade):
 
     def copyfile(self, src, dst, *, follow_symlinks=True):
         if self._samefile(src, dst):
-            raise self.SameFileError("%r and %r are the same file" % (src, dst))
+            e = self.SameFileError("%r and %r are the same file" % (src, dst))
+            e._sim = True
+            raise e
         for fn in (src, dst):
             try:
                 self._os.stat(fn)
